@@ -34,7 +34,8 @@ void vt_yield(const char *what);
 
 #define VT_DESC(m) (const void *)(m), sizeof(*(m)->key), sizeof(*(m)->value), (unsigned)(sizeof(*(m)->max_entries) / sizeof(int)), (unsigned)(sizeof(*(m)->type) / sizeof(int))
 #define bpf_map_lookup_elem(m, k) (vt_yield("lookup"), vt_lookup(VT_DESC(m), (k)))
-#define bpf_map_update_elem(m, k, v, f) (vt_yield("update"), vt_update(VT_DESC(m), (k), (v)))
+long vt_update_f(const void *id, unsigned ks, unsigned vs, unsigned cap, unsigned type, const void *key, const void *val, unsigned long long flags);
+#define bpf_map_update_elem(m, k, v, f) (vt_yield("update"), vt_update_f(VT_DESC(m), (k), (v), (f)))
 #define bpf_map_delete_elem(m, k) (vt_yield("delete"), vt_delete(VT_DESC(m), (k)))
 #define bpf_probe_read(dst, size, src) (memcpy((dst), (src), (size)), 0L)
 #define bpf_get_current_pid_tgid() (vt_yield("pid_tgid"), (((__u64)vt_current.tgid) << 32 | vt_current.tid))
